@@ -11,6 +11,30 @@ def search_counterexample(idx, lem, seed, n=600):
     """Evaluate both sides of a failed lemma on concrete inputs (IEEE / Z instance, vm_compute); return the first
     assignment on which they differ, or None."""
     g = core.Gen(seed); assigns = []
+    # structured candidates first: every argument group (variables sharing a prefix letter) uniformly set to one special value, all pairs of
+    # special values across the first two groups (this reaches MIN / -1, NaN vs number, x.5 ties ... in every lane at once)
+    groups = {}
+    for name, k in lem.vars: groups.setdefault(name.split('_')[0], []).append((name, k))
+    def specials(k):
+        if k == 'f32': return core.L32
+        if k == 'f64': return core.L64
+        if k == 'bool': return [0, 1]
+        b = core.BITS[k]; sgn = k[0] == 'i'; lo, hi = (-(1 << (b - 1)), (1 << (b - 1)) - 1) if sgn else (0, (1 << b) - 1)
+        return sorted(set([lo, hi, lo + 1, hi - 1, 0, 1, 2, 3, b - 1, b, max(lo, -1), max(lo, -2), hi // 2]))
+    gl = list(groups.values())
+    if gl and len(set(k for _, k in lem.vars)) <= 3:
+        import itertools
+        k0 = gl[0][0][1]; k1 = gl[1][0][1] if len(gl) > 1 else None
+        combos = list(itertools.product(specials(k0), specials(k1) if k1 else [None]))
+        g.r.shuffle(combos)
+        for u, v in combos[:max(200, n // 2)]:
+            a = []
+            for name, k in lem.vars:
+                grp = name.split('_')[0]
+                if grp == gl[0][0][0].split('_')[0] and k == k0: a.append(u)
+                elif k1 is not None and len(gl) > 1 and grp == gl[1][0][0].split('_')[0] and k == k1: a.append(v)
+                else: a.append(g.f32() if k == 'f32' else g.f64() if k == 'f64' else g.bool() if k == 'bool' else g.int(k))
+            assigns.append(a)
     for _ in range(n):
         a = []
         for name, k in lem.vars:
